@@ -1,8 +1,14 @@
 #!/bin/sh
 # offline setup: nothing is compiled; verify that the tools the checks need are usable
-set -e
-cd "$(dirname "$0")/.."
-(cd specs/stream && java -cp /opt/veriftools/tla/tla2tools.jar:/opt/veriftools/tla/CommunityModules-deps.jar tla2sany.SANY StreamGraph.tla >/dev/null 2>&1) || { echo "TLA+ tools not usable"; exit 1; }
-PYTHONPATH=/verif:/repo /venv/bin/python -c "import migen, litex, harness.tlc" || { echo "python env not usable"; exit 1; }
+cd "$(dirname "$0")/.." || exit 1
+CP=/opt/veriftools/tla/tla2tools.jar:/opt/veriftools/tla/CommunityModules-deps.jar
+(cd specs/common && java -cp "$CP" tla2sany.SANY GraphLookup.tla) > /tmp/verif-setup.$$ 2>&1
+if grep -q "Semantic processing of module GraphLookup" /tmp/verif-setup.$$ && ! grep -qi "error" /tmp/verif-setup.$$; then
+    :
+else
+    cat /tmp/verif-setup.$$; rm -f /tmp/verif-setup.$$; echo "TLA+ tools not usable"; exit 1
+fi
+rm -f /tmp/verif-setup.$$
+PYTHONPATH="$(pwd):/repo" /venv/bin/python -c "import migen, litex, harness.tlc, harness.graphloop" || { echo "python env not usable"; exit 1; }
 mkdir -p evidence
 echo "setup ok"
